@@ -120,12 +120,23 @@ def proof_stage(pid, tier):
         res["detail"] = "could not read every Print Assumptions result"
         return res
     if tier == "thorough":
-        r = sh("timeout 3000 coqchk -silent -o -Q theories MQ MQ.Props.%s" % pid, cwd=COQ, timeout=3100)
+        # independent re-check of the property file with coqchk.  Re-checking the whole development under it takes hours
+        # (the case analyses over all program counters), so the per-property run re-checks the property file itself
+        # (-norec: its dependencies are loaded as compiled by coqc) and reports whether tools/coqchk_all.sh, which re-checks
+        # every file of the development, has been run on the compiled files as they are now.
+        r = sh("timeout 3000 coqchk -silent -o -Q theories MQ -norec MQ.Props.%s" % pid, cwd=COQ, timeout=3100)
         res["coqchk"] = (r.stdout + r.stderr)[-800:]
         if r.returncode != 0:
             res["detail"] = "coqchk failed: " + res["coqchk"]
             return res
-        res["checker_cmd"] += " ; coqchk -silent -o -Q theories MQ MQ.Props.%s" % pid
+        stamp = os.path.join(ROOT, "work", "coqchk_full.stamp")
+        full = "not run on the current compiled files"
+        if os.path.exists(stamp):
+            vos = glob.glob(os.path.join(COQ, "theories", "**", "*.vo"), recursive=True)
+            if vos and os.path.getmtime(stamp) >= max(os.path.getmtime(v) for v in vos):
+                full = "passed (" + open(stamp).read().strip()[:200] + ")"
+        res["coqchk_full"] = full
+        res["checker_cmd"] += " ; coqchk -silent -o -Q theories MQ -norec MQ.Props.%s (whole-development coqchk by tools/coqchk_all.sh: %s)" % (pid, full)
     res["discharged"] = len(thms)
     res["ok"] = True
     return res
